@@ -1,6 +1,7 @@
 import GoLevel.Proofs.DurableView
 import GoLevel.Proofs.ManifestRead
 import GoLevel.Proofs.Batch
+import GoLevel.Proofs.DurableBytesExample
 /-!
 # Property C04 — crash consistency
 
@@ -27,6 +28,21 @@ them visible at the recovered sequence number, and the state after the crash is 
 machine (so the statement applies to the reopened DB and to crashes during recovery).  The invariant
 (`Proofs/DurableInv.lean`) is decidable and is also run on random walks of the machine
 (`Scratch/Explore.lean` in the work area: 4000 runs x 200 steps per configuration).
+
+The byte level, end to end (`Model/DurableBytes.lean`, last section of this file): the storage as byte strings with a
+synced prefix per file (`ByteDisk`), `encodeDisk` (journals = `Journal.encode` of `Batch.encode`d groups, manifests =
+`Journal.encode` of `sessionRecord.encode`d records, tables abstract), byte-level crash images (`crashWithB`: synced
+prefix kept, unsynced tail cut at ANY byte, optional junk behind it) and `recoverBytes` (the real readers in the modes
+`Open` uses, then `recoverR`; it is what the driver's `dur recover` runs on the real crash images of the harness).
+`recoverBytes_encodeDisk` (round trip), `crash_image_decodes` (every byte-level crash image decodes to a record-level
+crash image: the record that was cut is lost) and `crash_consistent_bytes` (C04 for byte-level crash images).
+Side conditions, all explicit: the records are within the limits of the wire formats (`Disk.Encodable`,
+`EncCtx.Valid`: 64-bit sequence numbers, 32-bit record counts, 63-bit file numbers, a deletion carries no value);
+the junk behind the surviving bytes is `Dur.Silent` (the tolerant reader with checksums gets the same complete
+records with and without it) — a theorem for no junk (`silent_nil`: every cut at every offset), for zeros after a cut
+at a record boundary (`silent_zeros`), and for anything that ends in the block of the chunk that was cut provided the
+chunk found there fails the reader's header/CRC test (`silent_rejected`, the hypothesis `¬ Accepts` of
+`C12.decode_damage_partial`; false only against forged CRC32C).
 
 Negative results (explicit traces, `by decide`): removing the flushed journal before the edit is synced
 loses an acknowledged write; a rotation that drops the journal/sequence numbers (D2 before its repair)
@@ -292,6 +308,228 @@ theorem d12_creation_window :
     openError {} { current := none, manifests := [(1, ⟨[{ snapshot := true, jn := some 0, sq := some 0, nf := 2 }], []⟩)] }
       = some .corrupted := by decide
 
+/-! ## the byte level, end to end -/
+
+/-- live tables, journals replayed, first sequence numbers of the recovered groups, `db.seq` -/
+def summary : Except ErrClass RState → Option (List Nat × List Nat × List Nat × Nat)
+  | .ok r => some (r.mv.live, r.replayed, r.grps.map (·.seq), r.seq)
+  | .error _ => none
+
+/-- **(a) Round trip.**  `Open` on the bytes the writers produced for a record-level disk is `Open` at record
+    level (up to the ghost `sync` flag of the groups replayed from journals, which is not on the disk). -/
+theorem recoverBytes_encodeDisk (cfg : Cfg) (hn : cfg.failedRecordLeavesNoTrace = true) (x : EncCtx) (hx : x.Valid)
+    (d : Disk) (hd : d.Encodable) :
+    recoverBytes cfg x.cmpName (encodeDisk x d) = (recoverR cfg d).map RState.onDisk := by
+  unfold recoverBytes
+  rw [manifestCheck_whole x hx d hd, decode_encodeDisk x hx d hd, recoverR_onDisk cfg hn]
+
+example : recoverBytes {} exCtx.cmpName (encodeDisk exCtx exDisk) = (recoverR {} exDisk).map RState.onDisk :=
+  recoverBytes_encodeDisk {} rfl exCtx exCtx_valid exDisk exDisk_encodable
+/-- … which is: table 4 is live, journal 5 is replayed, all four groups are there -/
+example : summary (recoverR {} exDisk) = some ([4], [5], [1, 2, 3, 5], 6) := by decide
+
+/-- **(b) Simulation.**  Every byte-level crash image of the encoded disk — per file the synced bytes, any number of
+    bytes of the unsynced tail, silent junk — decodes with the real readers to (the physical part of) a
+    record-level crash image in the sense of `Model/Disk.lean`: the records wholly inside the surviving bytes
+    survive, the record that was cut is lost, no manifest record is left torn. -/
+theorem crash_image_decodes (x : EncCtx) (hx : x.Valid) (d : Disk) (hd : d.Encodable)
+    (hm : d.manifests.Pairwise (fun p q => p.1 ≠ q.1)) (hj : d.journals.Pairwise (fun p q => p.1 ≠ q.1))
+    {bd' : ByteDisk} (hi : IsByteCrashImage (encodeDisk x d) bd') :
+    ∃ d', IsCrashImage d d' ∧ decodeDisk bd' = d'.onDisk ∧
+      (bd'.current.bind (lookup bd'.manifests)).bind (fun f => manifestCheck x.cmpName f.all) = none := by
+  obtain ⟨ch, ha, rfl⟩ := hi
+  obtain ⟨ch', _, _, e⟩ := crash_image_decodes_aux x hx d hd hm hj ch ha
+  exact ⟨crashWith ch' d, ⟨ch', rfl⟩, e, manifestCheck_image x hx d hd ch ha⟩
+
+/-- one journal file with the number of surviving records explicit: `keptRecs` counts the unsynced records that
+    lie wholly within the first `k` unsynced bytes -/
+theorem journal_image_decodes (f : LogFile Grp) (hf : ∀ g ∈ f.all, g.Encodable) (k : Nat) (junk : Bytes)
+    (hs : Silent ((encJournal f).kept k) junk) :
+    decJournal (crashFile k junk (encJournal f)).all =
+      (f.synced ++ f.unsynced.take (keptRecs (f.synced.map encGrpBytes) (f.unsynced.map encGrpBytes) k)).map
+        Grp.onDisk := by
+  rw [decJournal_image f hf k junk hs]; simp [crashLog, LogFile.all]
+
+/-- … and one manifest file (without crash artefacts from earlier crashes) -/
+theorem manifest_image_decodes (x : EncCtx) (hx : x.Valid) (f : LogFile MRec)
+    (hf : ∀ r ∈ f.all, r.torn = false ∧ r.Encodable) (k : Nat) (junk : Bytes)
+    (hs : Silent ((encManifest x f).kept k) junk) :
+    decManifest (crashFile k junk (encManifest x f)).all =
+      f.synced ++ f.unsynced.take (keptRecs (f.synced.map (encMRecBytes x)) (f.unsynced.map (encMRecBytes x)) k) := by
+  rw [decManifest_image_notorn x hx f hf k junk hs]; simp [crashLog, LogFile.all]
+
+/-! ### the side condition on junk -/
+
+/-- no junk: every cut, at every byte offset, is covered -/
+theorem silent_nil (base : Bytes) : Silent base [] := silent_nil_aux base
+
+/-- zeros (a preallocated extent) behind a cut at a record boundary — in particular behind a tail that was kept
+    or lost entirely -/
+theorem silent_zeros (S U : List Bytes) (j z : Nat) :
+    Silent ((encLog S U).kept (Journal.encodeFrom (Journal.endPos 0 S) (U.take j)).length) (List.replicate z 0) := by
+  rw [kept_at_boundary]; exact silent_zeros_aux _ z
+
+/-- junk that ends in the block of the chunk that was cut: `X` an intact prefix up to a chunk boundary
+    (`Journal.Boundary`), `T0` what survives of the chunk starting there, `J` the junk; both `T0` and `T0 ++ J` are
+    too short for a header or fail the reader's header/CRC test (`Dead`, i.e. `¬ Journal.Accepts` — the hypothesis
+    of `C12.decode_damage_partial`; `C12.altered_payload_rejected` discharges it for single-byte changes). -/
+theorem silent_rejected {rs done : List Bytes} {X : Bytes} {pos : Nat} {cur y : Option Bytes} {rest : List Bytes}
+    (hB : Journal.Boundary rs done X pos cur y rest) (T0 J : Bytes) (h0 : Dead pos y T0) (h1 : Dead pos y (T0 ++ J)) :
+    Silent (X ++ T0) J := silent_at_boundary_aux hB T0 J h0 h1
+
+example : Silent (Journal.encode [[1, 2, 3]] ++ [9, 9, 9]) [] := silent_nil _
+example : Silent ((encLog [[1, 2, 3]] [[4], [5, 6]]).kept 8) (List.replicate 50 0) := by
+  have := silent_zeros [[1, 2, 3]] [[4], [5, 6]] 1 50
+  have e : (Journal.encodeFrom (Journal.endPos 0 [[1, 2, 3]]) ([[4], [5, 6]].take 1)).length = 8 := by
+    simp [Journal.encodeFrom, Journal.endPos, Journal.emitRecord, Journal.pad, Journal.emitChunks, Journal.chunk_length,
+      Gen.journalBlockSize, Gen.journalHeaderSize]
+  rwa [e] at this
+set_option maxRecDepth 8000 in
+/-- after the record `[1,2,3]`, three bytes of the next chunk header survive, followed by garbage `0xFF…`: the
+    chunk type `0xFF` is invalid, the junk is silent -/
+example : Silent (Journal.encode [[1, 2, 3]] ++ ((Journal.chunk 1 [4]).take 3)) (List.replicate 9 0xFF) := by
+  have hB : Journal.Boundary [[1, 2, 3], [4]] [[1, 2, 3]] _ _ none none [[4]] :=
+    Journal.Boundary.record [[1, 2, 3]] [4] [] rfl
+  have hp : (Journal.pad (Journal.endPos 0 [[1, 2, 3]])).1 = [] := by decide
+  have := silent_rejected hB ((Journal.chunk 1 [4]).take 3) (List.replicate 9 0xFF) (by decide) (by decide)
+  rw [hp, List.append_nil] at this
+  exact this
+
+/-! ### C04 for byte-level crash images -/
+
+/-- what the DB reopened from bytes must be, relative to the history: as `Consistent`, with group identity up to
+    the `sync` flag (which is not on the disk) -/
+structure ConsistentBytes (c : UCmp) (s : St) (rb : RState) (sel : List Grp) : Prop where
+  sub : sel.Sublist (issuedGrps s)
+  acked : ∀ g ∈ ackedSync s, g ∈ sel
+  whole : ∀ g, g ∈ sel.map Grp.onDisk ↔ g ∈ rb.grps.map Grp.onDisk
+  visible : ∀ e ∈ rb.entries, e.seq ≤ rb.seq
+  reads : ∀ k, rb.get c k = view c (sel.flatMap Grp.ents) k rb.seq
+
+theorem consistentBytes_of {c : UCmp} {s : St} {r : RState} {sel : List Grp} (h : Consistent c s r sel) :
+    ConsistentBytes c s r.onDisk sel := by
+  refine ⟨h.sub, h.acked, ?_, ?_, ?_⟩
+  · intro g
+    have e : r.onDisk.grps.map Grp.onDisk = r.grps.map Grp.onDisk := by
+      simp [RState.grps, RState.onDisk, Grp.onDisk]
+    rw [e]
+    simp only [List.mem_map]
+    exact ⟨fun ⟨a, ha, e⟩ => ⟨a, (h.whole a).1 ha, e⟩, fun ⟨a, ha, e⟩ => ⟨a, (h.whole a).2 ha, e⟩⟩
+  · rw [RState.onDisk_entries]; exact h.visible
+  · intro k; rw [RState.onDisk_get]; exact h.reads k
+
+/-- **(c) C04, bytes.**  For every state of the machine reachable without storage faults, every BYTE-level crash
+    image of its encoded disk (any cut per file, silent junk) opens — `recoverBytes`, i.e. the real readers followed
+    by the record-level recovery, succeeds — and the reopened DB is consistent with the history: it is `r.onDisk`
+    for an `r` that satisfies `Consistent` (every group acknowledged with `Sync` is there, whole issued groups
+    only, everything visible, reads see the newest entry). -/
+theorem crash_consistent_bytes {cfg : Cfg} (hg : cfg.Good) {s : St} {d : Disk} (hr : ReachableFF cfg (s, d))
+    (x : EncCtx) (hx : x.Valid) (hd : d.Encodable) {bd' : ByteDisk} (hi : IsByteCrashImage (encodeDisk x d) bd')
+    {c : UCmp} (hl : LawfulUCmp c) (hw : ∀ g ∈ issuedGrps s, g.wf) :
+    ∃ r sel, recoverBytes cfg x.cmpName bd' = .ok r.onDisk ∧ Consistent c s r sel := by
+  have hinv := inv_reachable hg hr
+  obtain ⟨d', hc, e, hchk⟩ := crash_image_decodes x hx d hd hinv.disk.mnodup (sorted_nodup hinv.disk.jsorted) hi
+  obtain ⟨r, hrec, ⟨sel, hsel⟩, _⟩ := crash_consistent_core hg hr hc hl hw
+  refine ⟨r, sel, ?_, hsel⟩
+  unfold recoverBytes
+  rw [hchk, e, recoverR_onDisk cfg hg.noTrace, hrec]
+  rfl
+
+/-- … stated on the recovered byte-level state alone -/
+theorem crash_consistent_bytes_reads {cfg : Cfg} (hg : cfg.Good) {s : St} {d : Disk} (hr : ReachableFF cfg (s, d))
+    (x : EncCtx) (hx : x.Valid) (hd : d.Encodable) {bd' : ByteDisk} (hi : IsByteCrashImage (encodeDisk x d) bd')
+    {c : UCmp} (hl : LawfulUCmp c) (hw : ∀ g ∈ issuedGrps s, g.wf) :
+    ∃ rb sel, recoverBytes cfg x.cmpName bd' = .ok rb ∧ ConsistentBytes c s rb sel := by
+  obtain ⟨r, sel, h1, h2⟩ := crash_consistent_bytes hg hr x hx hd hi hl hw
+  exact ⟨r.onDisk, sel, h1, consistentBytes_of h2⟩
+
+/-! ### explicit byte-level crash images -/
+
+/-- `exDisk` (manifest 1 with an unsynced edit, the frozen journal 3, the current journal 5 with one synced and two
+    unsynced groups, table 4).  Crash: the manifest is cut after 10 of the 19 unsynced bytes — in the **payload** of
+    the edit; journal 5 is cut after 30 of its 51 unsynced bytes — in the **header** of its last record. -/
+def exCrash : ByteCrashChoice := { cutM := fun _ => 10, cutJ := fun _ => 30 }
+
+theorem exCrash_admissible : exCrash.Admissible (encodeDisk exCtx exDisk) :=
+  ⟨fun _ _ => silent_nil _, fun _ _ => silent_nil _⟩
+
+/-- what the real readers make of that image: the edit is gone (no trace of it), journal 5 keeps its synced group
+    and the first unsynced one -/
+theorem exCrash_decodes : decodeDisk (crashWithB exCrash (encodeDisk exCtx exDisk)) =
+    { current := some 1
+      manifests := [(1, ⟨[mSnap, mFirst], []⟩)]
+      journals := [(3, ⟨[gA.onDisk], []⟩), (5, ⟨[gB.onDisk, gC.onDisk], []⟩)]
+      tables := [(4, ⟨[gA], true, false⟩)] } := by
+  have hM := manifest_image_decodes exCtx exCtx_valid ⟨[mSnap, mFirst], [mFlush]⟩ (by decide) 10 [] (silent_nil _)
+  have h3 := journal_image_decodes ⟨[gA], []⟩ (by decide) 30 [] (silent_nil _)
+  have h5 := journal_image_decodes ⟨[gB], [gC, gD]⟩ (by decide) 30 [] (silent_nil _)
+  simp only [kept_m1_10, kept_j3, kept_j5_30, List.take_zero, List.take_succ_cons, List.take_nil, List.append_nil,
+    List.cons_append, List.nil_append, List.map_cons, List.map_nil] at hM h3 h5
+  simp only [decodeDisk, crashWithB, encodeDisk, exDisk, exCrash, List.map_cons, List.map_nil, crashTable, if_true,
+    hM, h3, h5]
+
+/-- … and `Open` on it: the flush is undone (journal 3 is replayed again), the group whose record header was cut
+    is gone as a whole, the three others — both synced ones among them — are there -/
+example : summary (recoverBytes {} exCtx.cmpName (crashWithB exCrash (encodeDisk exCtx exDisk))) =
+    some ([], [3, 5], [1, 2, 3], 5) := by
+  unfold recoverBytes
+  rw [manifestCheck_image exCtx exCtx_valid exDisk exDisk_encodable exCrash exCrash_admissible, exCrash_decodes]
+  decide
+
+/-- `bigDisk`: journal 2 holds a 40 KiB put (its record fills block 0 and continues in block 1) and a small one,
+    nothing synced.  Cut **between the blocks** (32768 bytes survive: a whole first chunk, then end of file) or
+    inside the header of the second chunk (32771): the reader drops the partial record ("missing chunk part"),
+    the journal reads as empty. -/
+example (k : Nat) (hk : k = 32768 ∨ k = 32771) :
+    decJournal (crashFile k [] (encJournal ⟨[], [gBig, gD]⟩)).all = [] := by
+  have h := journal_image_decodes ⟨[], [gBig, gD]⟩ (bigDisk_encodable.2 (2, ⟨[], [gBig, gD]⟩) (by simp [bigDisk])) k []
+    (silent_nil _)
+  have hk' := kept_big k (by omega)
+  simp only [List.map_cons, List.map_nil] at h
+  rw [h, hk']
+  rfl
+
+/-- … and the whole disk still opens as a record-level crash image -/
+example : ∃ d', IsCrashImage bigDisk d' ∧
+    decodeDisk (crashWithB { cutJ := fun _ => 32768 } (encodeDisk exCtx bigDisk)) = d'.onDisk := by
+  obtain ⟨d', h1, h2, _⟩ := crash_image_decodes exCtx exCtx_valid bigDisk bigDisk_encodable (by decide) (by decide)
+    ⟨{ cutJ := fun _ => 32768 }, ⟨fun _ _ => silent_nil _, fun _ _ => silent_nil _⟩, rfl⟩
+  exact ⟨d', h1, h2⟩
+
+/-- the run `flushUpToAppend` (a synced write, rotation, flush up to the unsynced edit) reaches a state whose disk
+    is within the limits of the wire formats -/
+theorem flushRun_ok : (run {} init flushUpToAppend).all
+    (fun sd => decide (sd.2.Encodable ∧ ∀ g ∈ issuedGrps sd.1, g.wf)) = true ∧
+    (run {} init flushUpToAppend).isSome = true := by decide
+
+/-- `crash_consistent_bytes` on that state, the crash cutting every file after 5 of its unsynced bytes (the manifest
+    in the header of the unsynced edit): the DB opens from the bytes and contains the acknowledged write -/
+example (sd : St × Disk) (h : run {} init flushUpToAppend = some sd) :
+    ∃ r sel, recoverBytes {} exCtx.cmpName
+        (crashWithB { cutM := fun _ => 5, cutJ := fun _ => 5 } (encodeDisk exCtx sd.2)) = .ok r.onDisk ∧
+      Consistent bytewise sd.1 r sel ∧ ⟨1, putKV, true⟩ ∈ sel := by
+  have hall := flushRun_ok.1
+  rw [h] at hall
+  simp only [Option.all_some, decide_eq_true_eq] at hall
+  obtain ⟨r, sel, h1, h2⟩ := crash_consistent_bytes ⟨rfl, rfl, rfl, rfl⟩ ⟨flushUpToAppend, by decide, h⟩ exCtx
+    exCtx_valid hall.1 ⟨{ cutM := fun _ => 5, cutJ := fun _ => 5 }, ⟨fun _ _ => silent_nil _, fun _ _ => silent_nil _⟩, rfl⟩
+    bytewise_lawful hall.2
+  refine ⟨r, sel, h1, h2, h2.acked _ ?_⟩
+  have : (run {} init flushUpToAppend).all (fun sd => decide ((⟨1, putKV, true⟩ : Grp) ∈ ackedSync sd.1)) = true := by
+    decide
+  rw [h] at this
+  simpa using this
+
+example (sd : St × Disk) (h : run {} init flushUpToAppend = some sd) (ch : ByteCrashChoice)
+    (ha : ch.Admissible (encodeDisk exCtx sd.2)) :
+    ∃ rb sel, recoverBytes {} exCtx.cmpName (crashWithB ch (encodeDisk exCtx sd.2)) = .ok rb ∧
+      ConsistentBytes bytewise sd.1 rb sel := by
+  have hall := flushRun_ok.1
+  rw [h] at hall
+  simp only [Option.all_some, decide_eq_true_eq] at hall
+  exact crash_consistent_bytes_reads ⟨rfl, rfl, rfl, rfl⟩ ⟨flushUpToAppend, by decide, h⟩ exCtx exCtx_valid hall.1
+    ⟨ch, ha, rfl⟩ bytewise_lawful hall.2
+
 /-- The property theorems of this file (for the audit). -/
 def theorems : List String :=
   ["GoLevel.C04.image_reads_prefix", "GoLevel.C04.manifest_image_reads_prefix",
@@ -299,6 +537,9 @@ def theorems : List String :=
    "GoLevel.C04.crash_consistent_core", "GoLevel.C04.crash_consistent", "GoLevel.C04.reopen_after_exit",
    "GoLevel.C04.early_journal_removal_loses_write", "GoLevel.C04.rotation_without_nums_hides_data",
    "GoLevel.C04.setmeta_before_sync_fails_to_reopen", "GoLevel.C04.d22_torn_manifest_record_loses_write",
-   "GoLevel.C04.d12_creation_window"]
+   "GoLevel.C04.d12_creation_window",
+   "GoLevel.C04.recoverBytes_encodeDisk", "GoLevel.C04.crash_image_decodes", "GoLevel.C04.journal_image_decodes",
+   "GoLevel.C04.manifest_image_decodes", "GoLevel.C04.silent_nil", "GoLevel.C04.silent_zeros",
+   "GoLevel.C04.silent_rejected", "GoLevel.C04.crash_consistent_bytes", "GoLevel.C04.crash_consistent_bytes_reads"]
 
 end GoLevel.C04
